@@ -73,4 +73,18 @@ var checks = map[string]*checkDef{
 			"an altered tuple that still verified would need a second valid encoding of a random R or a forgery; any acceptance after alteration is treated as a violation",
 		},
 	},
+	"C12": {
+		property: "C12", level: "exploration",
+		plan: []planItem{
+			{workload: "C12", variant: "plain", quick: 8000, thorough: 300000},
+			{workload: "C12", variant: "purego", thorough: 30000, thoroughOnly: true},
+			{workload: "C12", variant: "noavx2", thorough: 30000, thoroughOnly: true},
+			{workload: "C12", variant: "force32bit", thorough: 15000, thoroughOnly: true},
+		},
+		assume: []string{
+			"the schnorrkel model (key expansion, witness, challenge, s, encodings) is written from the schnorrkel / Merlin definitions over the independent Merlin model and math/big; group operations inside the model are the library's Ristretto arithmetic (trusted layer), so arithmetic defects shared by both sides are invisible here",
+			"honest R is uniformly random, so an accidental second valid encoding of an altered tuple has negligible probability; any acceptance of an altered tuple is treated as a violation",
+			"a signature's R is decompressed lazily: a non-canonical or swapped R is refused at Verify/Add, not by Signature.UnmarshalBinary; the XOF-read panic and the batch 'delinearization rng' panic are accepted only under an injected reader error",
+		},
+	},
 }
